@@ -153,7 +153,7 @@ def c08_2(R):
         same = False
         for x in b.calls():
             if x.bb in rem and ins:
-                same = trace(b, x.args[1]).describe() == trace(b, ins[0].args[1]).describe()
+                same = trace(b, x.args[1]).key() == trace(b, ins[0].args[1]).key()
         if ok and rem and same:
             R.ok("disarm=>manual-remove", fn, "disarm() is followed by streams.remove(&recv_key) on every path")
         else:
